@@ -218,6 +218,35 @@ def fitted_data_problems(sch, spec, stats):
                 stats["levels_with_single_datapoint"] = stats.get("levels_with_single_datapoint", 0) + 1
             if num_data != n_obs[level] + n_pend[level]:
                 bad.append(("per_level_surrogate_data_differs", level, num_data, n_obs[level], n_pend[level]))
+    # fourth observation point: the feature/target matrices the GP conditions on. (a) transform_state_to_data (the function
+    # GaussProcEstimator calls on this state) must return one row per fitted observation -- trials sharing a configuration
+    # (allow_duplicates) included -- followed by one row per pending evaluation, the un-normalised targets being the fitted
+    # values; (b) the posterior state of the joint GP was computed from that many rows
+    n_pending = len(fstate.pending_evaluations)
+    try:
+        from syne_tune.optimizer.schedulers.searchers.bayesopt.models.estimator import transform_state_to_data
+        nfant = 1
+        if n_pending:
+            nfant = int(next(iter(fstate.pending_evaluations[0].fantasies.values())).size)
+        data = transform_state_to_data(fstate, normalize_targets=False, num_fantasy_samples=nfant)
+        stats["gp_matrix_checks"] = stats.get("gp_matrix_checks", 0) + 1
+        n_rows = int(data.features.shape[0])
+        if n_rows != len(fitted) + n_pending or int(data.targets.shape[0]) != n_rows:
+            bad.append(("gp_feature_rows_differ_from_fitted_observations", n_rows, len(fitted), n_pending))
+        else:
+            got = sorted(float(x) for x in data.targets[:len(fitted), 0])
+            if got != sorted(fitted.values()):
+                bad.append(("gp_targets_differ_from_fitted_observations", got[:4], sorted(fitted.values())[:4]))
+        if len(set((str(sorted(fstate.config_for_trial[t].items())), r) for (t, r) in fitted)) < len(fitted):
+            stats["gp_matrix_checks_with_shared_inputs"] = stats.get("gp_matrix_checks_with_shared_inputs", 0) + 1
+    except (AttributeError, ImportError, TypeError) as e:      # observation point not available: noted, not a finding
+        stats["gp_matrix_check_unavailable"] = type(e).__name__
+    if pstates and not hasattr(pstates[0], "state"):
+        nd = getattr(pstates[0], "num_data", None)
+        if isinstance(nd, (int, np.integer)):
+            stats["gp_posterior_num_data_checks"] = stats.get("gp_posterior_num_data_checks", 0) + 1
+            if int(nd) != len(fitted) + n_pending:
+                bad.append(("gp_posterior_num_data_differs_from_fitted_observations", int(nd), len(fitted), n_pending))
     # rows handed to the surrogate
     configs, values = fstate.observed_data_for_metric()
     base_keys = set(next(iter(fstate.config_for_trial.values())).keys()) if fstate.config_for_trial else set()
@@ -848,6 +877,8 @@ def run(ctx, replay=None):
             sp.update(searcher="hypertune", type=rng.choice(["stopping", "promotion"]), check_fit=True, searcher_data="rungs",
                       max_size=None, allow_dup=False, tiny_space=None, num_init_random=2, nops=rng.randint(12, 30),
                       p_fail=0.0, brackets=1, rungs=rng.choice([0, 1, 5]), workers=rng.randint(1, 3), map_reward=None)
+            if sp["seed"] % 2 == 0:         # trials sharing configurations (derived from the case seed: generator not shifted)
+                sp.update(allow_dup=True, tiny_space=3)
             todo.append((sp, None))
         for _ in range(ctx.n(24, 300)):      # DyHPO (type="dyhpo", searcher="dyhpo"): promotion-type data path
             sp = gen_spec(rng)
